@@ -76,6 +76,9 @@ func makeAnnoCase(r *fw.Rng, thorough bool, format, form string, vp gen.VarProfi
 	ref := ac.an.Ref
 	if form == "fasta" {
 		nq := r.Range(1, nqMax)
+		if opts.ExactQueries > 0 {
+			nq = opts.ExactQueries
+		}
 		fromAnno := r.Chance(0.25)
 		if fromAnno {
 			vp.MaxInsSites = 0
@@ -88,6 +91,17 @@ func makeAnnoCase(r *fw.Rng, thorough bool, format, form string, vp gen.VarProfi
 			ac.msa.Rows[k].ID, ac.msa.Rows[k].Desc = ac.an.RefName, ac.an.RefName
 		}
 		recs := append([]gen.FastaRec{}, ac.msa.Rows...)
+		if !fromAnno && len(recs) > 0 && r.Chance(0.25) {
+			// a query whose name only starts with (or is a prefix of) the reference's: the reference
+			// is the record whose ID equals --reference, wherever it is in the file
+			k := r.Intn(len(recs))
+			nm := ac.an.RefName + []string{".v2", "0", "_alt", "/2"}[r.Intn(4)]
+			if r.Chance(0.25) && len(ac.an.RefName) > 1 {
+				nm = ac.an.RefName[:len(ac.an.RefName)-1]
+			}
+			recs[k].ID, recs[k].Desc = nm, nm
+			ac.msa.Rows[k].ID, ac.msa.Rows[k].Desc = nm, nm
+		}
 		if !fromAnno {
 			ac.refID = ac.an.RefName
 			refRec := gen.FastaRec{ID: ac.an.RefName, Desc: ac.an.RefName + " reference genome", Seq: ac.msa.RefRow}
